@@ -16,7 +16,7 @@ def corpus_section(args, rep, rng):
     c2, _ = tlc.cached_export('Suite', 'Export_SuiteAllowed2.cfg', timeout=3600)
     c2 = [c for c in c2 if len(c['blk']) == 2]
     rng.shuffle(c2)
-    cases = c1 + (c2[:8000] if args.tier == 'quick' else c2)
+    cases = c1 + (c2[:4000] if args.tier == 'quick' else c2)
     res = local.pmap(suitecanon.validate_case, cases, chunksize=64)
     bad = [b for r in res for b in r]
     # a string that S lets slide into docstring position of a module that uses __doc__ is the known finding D20; the eraser (rightly) keeps it apart
@@ -27,7 +27,7 @@ def corpus_section(args, rep, rng):
     optsets = {'none': [], 'all': ALL, 'defaults': DEFAULTS}
     for o in ALL:
         optsets['only-' + o] = [o]
-    files, skipped = corpus.stdlib('3.12', 60 if args.tier == 'quick' else None)
+    files, skipped = corpus.stdlib('3.12', 40 if args.tier == 'quick' else None)
     srcs = [('file:' + p, b) for p, b in files] + [('repo:' + p, b) for p, b in corpus.repo_sources()] + inputs.shapes('3.12')
     jobs = [{'id': name, 'src': b, 'optsets': optsets} for name, b in srcs]
     recs = [r for rs in local.pmap(suitecanon.observe_module, jobs, chunksize=2) for r in rs]
